@@ -20,6 +20,11 @@ Proof.
   apply (HP 0 rest); [lia|exact Hf|exact Hs].
 Qed.
 
+(* `( x )` is the variable x whenever x names no declared type: whatever its spelling, whatever follows *)
+Theorem paren_nontype_identifier_l : forall tbl x r, table_total tbl = true -> id_type x = false ->
+  exists fuel, p_primary tbl fuel (TLP :: TId x :: TRP :: r) = Ok (Var x, r).
+Proof. intros tbl x r Ht Hx. exact (paren_ident_operand tbl (total_spec tbl Ht) x r Hx). Qed.
+
 (* whatever fuel is used, the answer is that tree or "out of fuel" - never another tree, never an
    error.  (The driver doubles the fuel until the answer is not "out of fuel".) *)
 Theorem roundtrip_any_fuel_l : forall tbl e rest,
@@ -50,8 +55,18 @@ Fixpoint nopar (e : expr) : bool :=
   | Un _ a | Pre _ a | Post _ a | Mem a _ | Arrow a _ | EProp a | Cast _ a | Generic _ a => nopar a
   | Bin _ a b | Idx a b | Asg _ a b => nopar a && nopar b
   | Call _ args => forallb nopar args
+  | MCall _ a _ args => nopar a && forallb nopar args
   | Tern c a b => nopar c && nopar a && nopar b
+  | SizeofT => true
   end.
+
+Lemma map_strip_nopar l : Forall (fun e => nopar e = true -> strip e = e) l ->
+  forallb nopar l = true -> map strip l = l.
+Proof.
+  induction 1 as [|a l Ha Hl IH]; intros Hn; [reflexivity|].
+  cbn [forallb] in Hn. apply andb_true_iff in Hn. destruct Hn as [Hna Hnl].
+  cbn [map]. rewrite (Ha Hna), (IH Hnl). reflexivity.
+Qed.
 
 Lemma strip_nopar : forall e, nopar e = true -> strip e = e.
 Proof.
@@ -60,9 +75,8 @@ Proof.
     try reflexivity;
     repeat match goal with IH : nopar ?a = true -> _, H : nopar ?a = true |- _ => rewrite (IH H); clear IH end;
     try reflexivity.
-  f_equal. induction H as [|a l Ha Hl IH]; [reflexivity|].
-  cbn [forallb] in Hn. apply andb_true_iff in Hn. destruct Hn as [Hna Hnl].
-  cbn [map]. rewrite (Ha Hna), (IH Hnl). reflexivity.
+  - rewrite (map_strip_nopar args H Hn). reflexivity.
+  - rewrite (map_strip_nopar args H H1). reflexivity.
 Qed.
 
 Theorem roundtrip_min_l : forall tbl e rest,
@@ -78,24 +92,34 @@ Qed.
 Lemma strip_wrap e : strip (wrap e) = strip e.
 Proof. unfold wrap. destruct (atomic e); reflexivity. Qed.
 
+Lemma map_strip_full l : Forall (fun e => strip (full e) = strip e) l -> map strip (map full l) = map strip l.
+Proof. induction 1 as [|a l Ha Hl IH]; [reflexivity|]. cbn [map]. rewrite Ha, IH. reflexivity. Qed.
+
 Lemma strip_full : forall e, strip (full e) = strip e.
 Proof.
   induction e using expr_ind2; cbn [full strip]; rewrite ?strip_wrap; try congruence.
-  f_equal. induction H as [|a l Ha Hl IH]; [reflexivity|]. cbn [map]. rewrite Ha, IH. reflexivity.
+  - rewrite (map_strip_full args H). reflexivity.
+  - rewrite (map_strip_full args H), IHe. reflexivity.
 Qed.
 
 Lemma wf_wrap e : wf (wrap e) = wf e.
 Proof. unfold wrap. destruct (atomic e); reflexivity. Qed.
+
+Lemma forallb_wf_full l : Forall (fun e => wf e = true -> wf (full e) = true) l ->
+  forallb wf l = true -> forallb wf (map full l) = true.
+Proof.
+  induction 1 as [|a l Ha Hl IH]; intros Hw; [reflexivity|].
+  cbn [forallb] in Hw. apply andb_true_iff in Hw. destruct Hw as [Hwa Hwl].
+  cbn [map forallb]. rewrite (Ha Hwa), (IH Hwl). reflexivity.
+Qed.
 
 Lemma wf_full : forall e, wf e = true -> wf (full e) = true.
 Proof.
   induction e using expr_ind2; intros Hw; cbn [full wf] in *; rewrite ?wf_wrap; try discriminate Hw;
     repeat match goal with H : _ && _ = true |- _ => apply andb_true_iff in H; destruct H end;
     auto;
-    repeat (apply andb_true_iff; split); auto.
-  - induction H as [|a l Ha Hl IH]; [reflexivity|].
-    cbn [forallb] in Hw. apply andb_true_iff in Hw. destruct Hw as [Hwa Hwl].
-    cbn [map forallb]. rewrite (Ha Hwa), (IH Hwl). reflexivity.
+    repeat (apply andb_true_iff; split); auto using forallb_wf_full.
+  - rewrite map_length. assumption.
   - rewrite strip_full. assumption.
 Qed.
 
@@ -111,9 +135,12 @@ Fixpoint fullpar (e : expr) : bool :=
   | Un _ a | Pre _ a | Post _ a | Mem a _ | Arrow a _ => opnd a && fullpar a
   | Idx a i => opnd a && fullpar a && fullpar i
   | Call _ args => forallb fullpar args
+  | MCall _ a _ args => opnd a && fullpar a && forallb fullpar args
   | Tern c a b => opnd c && opnd a && opnd b && fullpar c && fullpar a && fullpar b
   | Asg _ l r => fullpar l && opnd r && fullpar r
-  | EProp a | Cast _ a | Generic _ a => fullpar a
+  | Cast _ a => opnd a && fullpar a
+  | EProp a | Generic _ a => fullpar a
+  | SizeofT => true
   end.
 
 Lemma opnd_wrap e : opnd (wrap e) = true.
@@ -121,11 +148,14 @@ Proof. unfold wrap. destruct (atomic e) eqn:E; [|reflexivity]. unfold opnd. rewr
 Lemma fullpar_wrap e : fullpar (wrap e) = fullpar e.
 Proof. unfold wrap. destruct (atomic e); reflexivity. Qed.
 
+Lemma forallb_fullpar_full l : Forall (fun e => fullpar (full e) = true) l -> forallb fullpar (map full l) = true.
+Proof. induction 1 as [|a l Ha Hl IH]; [reflexivity|]. cbn [map forallb]. rewrite Ha, IH. reflexivity. Qed.
+
 Lemma fullpar_full : forall e, fullpar (full e) = true.
 Proof.
   induction e using expr_ind2; cbn [full fullpar]; rewrite ?opnd_wrap, ?fullpar_wrap; cbn [andb];
-    repeat match goal with IH : fullpar _ = true |- _ => rewrite IH; clear IH end; try reflexivity.
-  induction H as [|a l Ha Hl IH]; [reflexivity|]. cbn [map forallb]. rewrite Ha, IH. reflexivity.
+    repeat match goal with IH : fullpar _ = true |- _ => rewrite IH; clear IH end; try reflexivity;
+    apply forallb_fullpar_full; assumption.
 Qed.
 
 Theorem roundtrip_full_l : forall tbl e rest,
@@ -179,6 +209,7 @@ Proof.
     { induction 1 as [|a l Ha Hl IH]; [reflexivity|]. cbn [map]. rewrite Ha, IH. reflexivity. }
     rewrite (E args H). reflexivity.
   - rewrite IHe1, IHe2, IHe3. reflexivity.
+  - rewrite IHe. reflexivity.
 Qed.
 
 Lemma eval_strip env e : eval env (strip e) = eval env e.
@@ -202,29 +233,8 @@ Proof.
   rewrite eval_strip. auto.
 Qed.
 
-(* ------------------------------------------------------------------ streams without `(` are safe *)
-Fixpoint nolp (ts : list tok) : bool :=
-  match ts with [] => true | TLP :: _ => false | _ :: r => nolp r end.
-
-Lemma nolp_scan ts : nolp ts = true -> forall d, generic_scan d ts = false.
-Proof.
-  induction ts as [|t r IH]; intros H d; [reflexivity|].
-  destruct t; cbn [nolp] in H; try discriminate H; cbn [generic_scan]; try reflexivity; try (apply IH; exact H).
-  - destruct o; try reflexivity; try (apply IH; exact H).
-    destruct d as [|[|d]]; try (apply IH; exact H);
-      (destruct r as [|t' r']; [reflexivity|]; destruct t'; try reflexivity; discriminate H).
-  - destruct o; try reflexivity; apply IH; exact H.
-Qed.
-
-Lemma nolp_safe ts : nolp ts = true -> safeb ts = true.
-Proof.
-  induction ts as [|t r IH]; intros H; [reflexivity|].
-  destruct t; cbn [nolp] in H; try discriminate H; cbn [safeb]; rewrite (IH H); try reflexivity.
-  destruct r as [|t' r']; [reflexivity|]. destruct t'; try reflexivity.
-  destruct o; try reflexivity. cbn [nolp] in H. rewrite (nolp_scan r' H). reflexivity.
-Qed.
-
-(* the generator's syntactic sufficient condition for the generic look-ahead: no `>` directly before `(` *)
+(* ------------------------------------------------------------------ syntactic sufficient conditions *)
+(* the generic look-ahead: no `>` directly before `(` *)
 Lemma no_gt_lp_scan ts : forall d, generic_scan d ts = true -> no_gt_lp ts = false.
 Proof.
   induction ts as [|t r IH]; intros d H; [discriminate H|].
@@ -244,31 +254,79 @@ Proof.
   rewrite (no_gt_lp_scan ts d E) in H. discriminate H.
 Qed.
 
-Lemma no_gt_lp_tail t r : no_gt_lp (t :: r) = true -> no_gt_lp r = true.
-Proof.
-  cbn [no_gt_lp]. destruct t; auto. destruct o; auto. destruct r as [|t' r']; auto. destruct t'; auto. discriminate.
-Qed.
+Lemma syn_safe_tail t r : syn_safe (t :: r) = true -> syn_safe r = true.
+Proof. cbn [syn_safe]. intros H. apply andb_true_iff in H. apply H. Qed.
 
-(* ... and then the whole stream is safe *)
-Theorem no_gt_lp_safe_l : forall ts, no_gt_lp ts = true -> safeb ts = true.
+Lemma syn_safe_no_gt_lp ts : syn_safe ts = true -> no_gt_lp ts = true.
 Proof.
   induction ts as [|t r IH]; intros H; [reflexivity|].
-  pose proof (no_gt_lp_tail t r H) as Hr. cbn [safeb]. rewrite (IH Hr), andb_true_r.
-  destruct t; try reflexivity. destruct r as [|t' r']; [reflexivity|]. destruct t'; try reflexivity.
-  destruct o; try reflexivity.
-  rewrite (no_gt_lp_generic_safe_l r' (no_gt_lp_tail _ _ Hr)). reflexivity.
+  pose proof (IH (syn_safe_tail t r H)) as Hr. cbn [syn_safe] in H. apply andb_true_iff in H. destruct H as [H _].
+  cbn [no_gt_lp]. destruct t; try exact Hr. destruct o; try exact Hr.
+  destruct r as [|t' r']; [exact Hr|]. destruct t'; try exact Hr. discriminate H.
 Qed.
 
-(* the same with the purely syntactic side condition: no `>` directly before `(` in either text *)
+(* the whole hazard predicate: a stream is safe when no `>` stands directly before `(`, no upper-case
+   identifier directly before `<` or directly after `sizeof (`, and no type-named identifier directly
+   after `(` *)
+Lemma syn_safe_from ts : syn_safe ts = true -> forall p, safe_from p ts = true.
+Proof.
+  induction ts as [|t r IH]; intros H p; [reflexivity|].
+  pose proof (syn_safe_tail t r H) as Hr. cbn [safe_from]. rewrite (IH Hr), andb_true_r.
+  cbn [syn_safe] in H. apply andb_true_iff in H. destruct H as [H _]. apply negb_true_iff in H.
+  apply negb_true_iff. destruct t; try reflexivity.
+  - (* identifier *)
+    cbn [hazard]. destruct p; try reflexivity;
+      (destruct r as [|t' r']; [reflexivity|]; destruct t'; try reflexivity;
+       [ destruct o; try reflexivity; rewrite H; cbn [orb];
+         apply no_gt_lp_generic_safe_l; apply syn_safe_no_gt_lp; exact (syn_safe_tail _ _ Hr)
+       | destruct r' as [|t2 r2]; [reflexivity|]; destruct t2; try reflexivity; exact H ]).
+  - (* ( *)
+    cbn [hazard]. destruct p; try reflexivity;
+      (destruct r as [|t' r']; [reflexivity|]; destruct t'; try reflexivity;
+       cbn [cast_type]; rewrite H; reflexivity).
+Qed.
+
+Theorem syn_safe_l : forall ts, syn_safe ts = true -> safeb ts = true.
+Proof. intros ts H. apply syn_safe_from. exact H. Qed.
+
+(* the same with the purely syntactic side condition on both texts *)
 Theorem redundant_parens_syntactic_l : forall tbl e e' rest,
   table_total tbl = true -> wf e = true -> wf e' = true -> strip e = strip e' ->
   folb tbl 0 rest = true ->
-  no_gt_lp (pr tbl 0 e ++ rest) = true -> no_gt_lp (pr tbl 0 e' ++ rest) = true ->
+  syn_safe (pr tbl 0 e ++ rest) = true -> syn_safe (pr tbl 0 e' ++ rest) = true ->
   exists fuel, p_assign tbl fuel (pr tbl 0 e ++ rest) = Ok (strip e, rest) /\
                p_assign tbl fuel (pr tbl 0 e' ++ rest) = Ok (strip e, rest).
 Proof.
-  intros. apply redundant_parens_l; auto using no_gt_lp_safe_l.
+  intros. apply redundant_parens_l; auto using syn_safe_l.
 Qed.
+
+(* streams without `(` in which no upper-case identifier stands before `<` *)
+Fixpoint nolp (ts : list tok) : bool :=
+  match ts with [] => true | TLP :: _ => false | _ :: r => nolp r end.
+Fixpoint no_upper_lt (ts : list tok) : bool :=
+  match ts with
+  | [] => true
+  | TId x :: ((TOp LtO :: _) as r) => negb (id_upper x) && no_upper_lt r
+  | _ :: r => no_upper_lt r
+  end.
+
+Lemma nolp_syn_safe ts : nolp ts = true -> no_upper_lt ts = true -> syn_safe ts = true.
+Proof.
+  induction ts as [|t r IH]; intros Hn Hu; [reflexivity|].
+  assert (Hn' : nolp r = true) by (destruct t; try exact Hn; discriminate Hn).
+  assert (Hu' : no_upper_lt r = true).
+  { destruct t; try exact Hu. cbn [no_upper_lt] in Hu. destruct r as [|t' r']; [reflexivity|].
+    destruct t'; try exact Hu. destruct o; try exact Hu. apply andb_true_iff in Hu. apply Hu. }
+  cbn [syn_safe]. rewrite (IH Hn' Hu'), andb_true_r.
+  destruct t; try reflexivity; try discriminate Hn.
+  - destruct r as [|t' r']; [reflexivity|]. destruct t'; try reflexivity; try discriminate Hn'.
+    destruct o; try reflexivity. cbn [no_upper_lt] in Hu. apply andb_true_iff in Hu. destruct Hu as [Hu _].
+    exact Hu.
+  - destruct o; try reflexivity. destruct r as [|t' r']; [reflexivity|]. destruct t'; try reflexivity. discriminate Hn'.
+Qed.
+
+Lemma nolp_safe ts : nolp ts = true -> no_upper_lt ts = true -> safeb ts = true.
+Proof. intros. apply syn_safe_l, nolp_syn_safe; assumption. Qed.
 
 (* ------------------------------------------------------------------ associativity and precedence,
    on concrete token streams (operands are arbitrary identifiers) *)
@@ -289,101 +347,109 @@ Proof. intros H. rewrite pr_le by (cbn [lev]; lia). reflexivity. Qed.
 
 (* x o1 y o2 z with both operators on one level groups to the left *)
 Theorem binary_left_assoc_l : forall o1 o2 x y z, lvl tbl o1 = lvl tbl o2 ->
+  safeb [TId x; TOp o1; TId y; TOp o2; TId z] = true ->
   exists fuel, p_assign tbl fuel [TId x; TOp o1; TId y; TOp o2; TId z] =
                Ok (Bin o2 (Bin o1 (Var x) (Var y)) (Var z), []).
 Proof.
-  intros o1 o2 x y z E. pose proof (tot o1). pose proof (lvl_le tbl o1).
+  intros o1 o2 x y z E Hsf. pose proof (tot o1). pose proof (lvl_le tbl o1).
   assert (P : pr tbl 0 (Bin o2 (Bin o1 (Var x) (Var y)) (Var z)) = [TId x; TOp o1; TId y; TOp o2; TId z]).
   { rewrite pr0_bin. rewrite (pr_le tbl _ (Bin o1 _ _)) by (cbn [lev]; lia).
     rewrite pr0_bin. rewrite !pr_var by lia. reflexivity. }
   destruct (roundtrip_general_l tbl (Bin o2 (Bin o1 (Var x) (Var y)) (Var z)) [] Ht) as [f Hf];
     [reflexivity|reflexivity| |exists f; rewrite app_nil_r, P in Hf; exact Hf].
-  rewrite app_nil_r, P. apply nolp_safe. reflexivity.
+  rewrite app_nil_r, P. exact Hsf.
 Qed.
 
 (* the operator of the higher level binds tighter, on either side *)
 Theorem higher_level_binds_tighter_l : forall o1 o2 x y z, lvl tbl o1 < lvl tbl o2 ->
-  (exists fuel, p_assign tbl fuel [TId x; TOp o1; TId y; TOp o2; TId z] =
+  (safeb [TId x; TOp o1; TId y; TOp o2; TId z] = true ->
+   exists fuel, p_assign tbl fuel [TId x; TOp o1; TId y; TOp o2; TId z] =
                 Ok (Bin o1 (Var x) (Bin o2 (Var y) (Var z)), [])) /\
-  (exists fuel, p_assign tbl fuel [TId x; TOp o2; TId y; TOp o1; TId z] =
+  (safeb [TId x; TOp o2; TId y; TOp o1; TId z] = true ->
+   exists fuel, p_assign tbl fuel [TId x; TOp o2; TId y; TOp o1; TId z] =
                 Ok (Bin o1 (Bin o2 (Var x) (Var y)) (Var z), [])).
 Proof.
-  intros o1 o2 x y z E. pose proof (tot o1). pose proof (lvl_le tbl o2). split.
+  intros o1 o2 x y z E. pose proof (tot o1). pose proof (lvl_le tbl o2). split; intros Hsf.
   - assert (P : pr tbl 0 (Bin o1 (Var x) (Bin o2 (Var y) (Var z))) = [TId x; TOp o1; TId y; TOp o2; TId z]).
     { rewrite pr0_bin. rewrite (pr_le tbl _ (Bin o2 _ _)) by (cbn [lev]; lia).
       rewrite pr0_bin. rewrite !pr_var by lia. reflexivity. }
     destruct (roundtrip_general_l tbl (Bin o1 (Var x) (Bin o2 (Var y) (Var z))) [] Ht) as [f Hf];
       [reflexivity|reflexivity| |exists f; rewrite app_nil_r, P in Hf; exact Hf].
-    rewrite app_nil_r, P. apply nolp_safe. reflexivity.
+    rewrite app_nil_r, P. exact Hsf.
   - assert (P : pr tbl 0 (Bin o1 (Bin o2 (Var x) (Var y)) (Var z)) = [TId x; TOp o2; TId y; TOp o1; TId z]).
     { rewrite pr0_bin. rewrite (pr_le tbl _ (Bin o2 _ _)) by (cbn [lev]; lia).
       rewrite pr0_bin. rewrite !pr_var by lia. reflexivity. }
     destruct (roundtrip_general_l tbl (Bin o1 (Bin o2 (Var x) (Var y)) (Var z)) [] Ht) as [f Hf];
       [reflexivity|reflexivity| |exists f; rewrite app_nil_r, P in Hf; exact Hf].
-    rewrite app_nil_r, P. apply nolp_safe. reflexivity.
+    rewrite app_nil_r, P. exact Hsf.
 Qed.
 
 (* a ? b : c ? d : e  =  a ? b : (c ? d : e) *)
 Theorem ternary_right_assoc_l : forall a b c d e,
+  safeb [TId a; TQ; TId b; TColon; TId c; TQ; TId d; TColon; TId e] = true ->
   exists fuel, p_assign tbl fuel [TId a; TQ; TId b; TColon; TId c; TQ; TId d; TColon; TId e] =
                Ok (Tern (Var a) (Var b) (Tern (Var c) (Var d) (Var e)), []).
 Proof.
-  intros a b c d e.
+  intros a b c d e Hsf.
   assert (P : pr tbl 0 (Tern (Var a) (Var b) (Tern (Var c) (Var d) (Var e))) =
               [TId a; TQ; TId b; TColon; TId c; TQ; TId d; TColon; TId e]).
   { rewrite pr0_tern. rewrite (pr_le tbl 1 (Tern _ _ _)) by (cbn [lev]; lia). rewrite pr0_tern.
     rewrite !pr_var by lia. reflexivity. }
   destruct (roundtrip_general_l tbl (Tern (Var a) (Var b) (Tern (Var c) (Var d) (Var e))) [] Ht) as [f Hf];
     [reflexivity|reflexivity| |exists f; rewrite app_nil_r, P in Hf; exact Hf].
-  rewrite app_nil_r, P. apply nolp_safe. reflexivity.
+  rewrite app_nil_r, P. exact Hsf.
 Qed.
 
 (* x op1= y op2= z  =  x op1= (y op2= z) *)
 Theorem assignment_right_assoc_l : forall o1 o2 x y z,
+  safeb [TId x; TAsg o1; TId y; TAsg o2; TId z] = true ->
   exists fuel, p_assign tbl fuel [TId x; TAsg o1; TId y; TAsg o2; TId z] =
                Ok (Asg o1 (Var x) (Asg o2 (Var y) (Var z)), []).
 Proof.
-  intros o1 o2 x y z.
+  intros o1 o2 x y z Hsf.
   assert (P : pr tbl 0 (Asg o1 (Var x) (Asg o2 (Var y) (Var z))) = [TId x; TAsg o1; TId y; TAsg o2; TId z]).
   { rewrite !pr0_asg. rewrite !pr_var by lia. reflexivity. }
   destruct (roundtrip_general_l tbl (Asg o1 (Var x) (Asg o2 (Var y) (Var z))) [] Ht) as [f Hf];
     [reflexivity|reflexivity| |exists f; rewrite app_nil_r, P in Hf; exact Hf].
-  rewrite app_nil_r, P. apply nolp_safe. reflexivity.
+  rewrite app_nil_r, P. exact Hsf.
 Qed.
 
 (* x = a o b ? c : d   =   x = ((a o b) ? c : d):  binary > ?: > assignment *)
 Theorem binary_ternary_assignment_l : forall o x a b c d,
+  safeb [TId x; TAsg None; TId a; TOp o; TId b; TQ; TId c; TColon; TId d] = true ->
   exists fuel, p_assign tbl fuel [TId x; TAsg None; TId a; TOp o; TId b; TQ; TId c; TColon; TId d] =
                Ok (Asg None (Var x) (Tern (Bin o (Var a) (Var b)) (Var c) (Var d)), []).
 Proof.
-  intros o x a b c d. pose proof (tot o). pose proof (lvl_le tbl o).
+  intros o x a b c d Hsf. pose proof (tot o). pose proof (lvl_le tbl o).
   assert (P : pr tbl 0 (Asg None (Var x) (Tern (Bin o (Var a) (Var b)) (Var c) (Var d))) =
               [TId x; TAsg None; TId a; TOp o; TId b; TQ; TId c; TColon; TId d]).
   { rewrite pr0_asg, pr0_tern. rewrite (pr_le tbl 2 (Bin _ _ _)) by (cbn [lev]; lia). rewrite pr0_bin.
     rewrite !pr_var by lia. reflexivity. }
   destruct (roundtrip_general_l tbl (Asg None (Var x) (Tern (Bin o (Var a) (Var b)) (Var c) (Var d))) [] Ht) as [f Hf];
     [reflexivity|reflexivity| |exists f; rewrite app_nil_r, P in Hf; exact Hf].
-  rewrite app_nil_r, P. apply nolp_safe. reflexivity.
+  rewrite app_nil_r, P. exact Hsf.
 Qed.
 
 (* u x o y = (u x) o y  and  x o u y = x o (u y):  unary > every binary level *)
 Theorem unary_binds_tighter_than_binary_l : forall u o x y,
-  (exists fuel, p_assign tbl fuel [utok u; TId x; TOp o; TId y] = Ok (Bin o (Un u (Var x)) (Var y), [])) /\
-  (exists fuel, p_assign tbl fuel [TId x; TOp o; utok u; TId y] = Ok (Bin o (Var x) (Un u (Var y)), [])).
+  (safeb [utok u; TId x; TOp o; TId y] = true ->
+   exists fuel, p_assign tbl fuel [utok u; TId x; TOp o; TId y] = Ok (Bin o (Un u (Var x)) (Var y), [])) /\
+  (safeb [TId x; TOp o; utok u; TId y] = true ->
+   exists fuel, p_assign tbl fuel [TId x; TOp o; utok u; TId y] = Ok (Bin o (Var x) (Un u (Var y)), [])).
 Proof.
-  intros u o x y. pose proof (tot o). pose proof (lvl_le tbl o). split.
+  intros u o x y. pose proof (tot o). pose proof (lvl_le tbl o). split; intros Hsf.
   - assert (P : pr tbl 0 (Bin o (Un u (Var x)) (Var y)) = [utok u; TId x; TOp o; TId y]).
     { rewrite pr0_bin. rewrite (pr_le tbl _ (Un _ _)) by (cbn [lev]; lia). rewrite pr0_un.
       rewrite !pr_var by lia. reflexivity. }
     destruct (roundtrip_general_l tbl (Bin o (Un u (Var x)) (Var y)) [] Ht) as [f Hf];
       [reflexivity|reflexivity| |exists f; rewrite app_nil_r, P in Hf; exact Hf].
-    rewrite app_nil_r, P. apply nolp_safe. destruct u; reflexivity.
+    rewrite app_nil_r, P. exact Hsf.
   - assert (P : pr tbl 0 (Bin o (Var x) (Un u (Var y))) = [TId x; TOp o; utok u; TId y]).
     { rewrite pr0_bin. rewrite (pr_le tbl _ (Un _ _)) by (cbn [lev]; lia). rewrite pr0_un.
       rewrite !pr_var by lia. reflexivity. }
     destruct (roundtrip_general_l tbl (Bin o (Var x) (Un u (Var y))) [] Ht) as [f Hf];
       [reflexivity|reflexivity| |exists f; rewrite app_nil_r, P in Hf; exact Hf].
-    rewrite app_nil_r, P. apply nolp_safe. destruct u; reflexivity.
+    rewrite app_nil_r, P. exact Hsf.
 Qed.
 
 (* u x [ i ] = u (x[i]),  u x ++ = u (x++),  u x . m = u (x.m):  postfix > unary *)
@@ -392,25 +458,27 @@ Theorem postfix_binds_tighter_than_unary_l : forall u x i m d,
   (exists fuel, p_assign tbl fuel [utok u; TId x; itok d] = Ok (Un u (Post d (Var x)), [])) /\
   (exists fuel, p_assign tbl fuel [utok u; TId x; TDot; TId m] = Ok (Un u (Mem (Var x) m), [])).
 Proof.
-  intros u x i m d. repeat split.
+  intros u x i m d.
+  assert (Hsf : forall ts, nolp ts = true -> no_upper_lt ts = true -> safeb ts = true) by exact nolp_safe.
+  repeat split.
   - assert (P : pr tbl 0 (Un u (Idx (Var x) (Var i))) = [utok u; TId x; TLB; TId i; TRB]).
     { rewrite pr0_un. rewrite (pr_le tbl _ (Idx _ _)) by (cbn [lev]; lia). rewrite pr0_idx.
       rewrite !pr_var by lia. reflexivity. }
     destruct (roundtrip_general_l tbl (Un u (Idx (Var x) (Var i))) [] Ht) as [f Hf];
       [reflexivity|reflexivity| |exists f; rewrite app_nil_r, P in Hf; exact Hf].
-    rewrite app_nil_r, P. apply nolp_safe. destruct u; reflexivity.
+    rewrite app_nil_r, P. apply Hsf; destruct u, d; reflexivity.
   - assert (P : pr tbl 0 (Un u (Post d (Var x))) = [utok u; TId x; itok d]).
     { rewrite pr0_un. rewrite (pr_le tbl _ (Post _ _)) by (cbn [lev]; lia). rewrite pr0_post.
       rewrite !pr_var by lia. reflexivity. }
     destruct (roundtrip_general_l tbl (Un u (Post d (Var x))) [] Ht) as [f Hf];
       [reflexivity|reflexivity| |exists f; rewrite app_nil_r, P in Hf; exact Hf].
-    rewrite app_nil_r, P. apply nolp_safe. destruct u, d; reflexivity.
+    rewrite app_nil_r, P. apply Hsf; destruct u, d; reflexivity.
   - assert (P : pr tbl 0 (Un u (Mem (Var x) m)) = [utok u; TId x; TDot; TId m]).
     { rewrite pr0_un. rewrite (pr_le tbl _ (Mem _ _)) by (cbn [lev]; lia). rewrite pr0_mem.
       rewrite !pr_var by lia. reflexivity. }
     destruct (roundtrip_general_l tbl (Un u (Mem (Var x) m)) [] Ht) as [f Hf];
       [reflexivity|reflexivity| |exists f; rewrite app_nil_r, P in Hf; exact Hf].
-    rewrite app_nil_r, P. apply nolp_safe. destruct u; reflexivity.
+    rewrite app_nil_r, P. apply Hsf; destruct u, d; reflexivity.
 Qed.
 
 End Shapes.
